@@ -15,12 +15,15 @@ package udp
 
 import (
 	"context"
+	"errors"
 	"net"
 	"reflect"
 
 	"github.com/hprose/hprose-golang/v3/internal/convert"
 	"github.com/hprose/hprose-golang/v3/rpc/core"
 )
+
+var errResponseTooLarge = errors.New("hprose/rpc/udp: response too large for a datagram")
 
 type Handler struct {
 	Service *core.Service
@@ -155,6 +158,13 @@ func (h *Handler) send(ctx context.Context, conn *net.UDPConn, queue chan data, 
 				} else {
 					body = convert.ToUnsafeBytes(e.Error())
 				}
+				h.onError(conn, e)
+			}
+			if len(body) > len(buffer)-8 {
+				// a datagram cannot carry this response: answer with an error instead
+				e = errResponseTooLarge
+				index |= 0x8000
+				body = convert.ToUnsafeBytes(e.Error())
 				h.onError(conn, e)
 			}
 			header := makeHeader(len(body), index)
